@@ -246,10 +246,12 @@ def c19_prop():
               H(RING, "zst_fixed_c2", "hold", replay=("ring_zst_fixed", 2), est_s=20, bounds="FixedHeapBuf of zero-sized elements, capacity 2, 4 operations"),
               H(RING, "zst_growing_c2", "hold", replay=("ring_zst_growing", 2), est_s=20, bounds="GrowingHeapBuf of zero-sized elements, capacity 2, 4 operations"),
               H(RING, "zst_array_c2", "hold", replay=("ring_zst_array", 2), est_s=20, bounds="ArrayBuf of zero-sized elements, capacity 2, 4 operations")]
-    quick.append(H(RING, "array_witness_c2", "witness", replay=("ring_hist_array", 2), witness_bit=5, est_s=20,
+    for j in quick:
+        j.setdefault("mask", P(19))   # the ring interpreter arms the C18 allocation counters only under P18
+    quick.append(H(RING, "array_witness_c2", "witness", replay=("ring_hist_array", 2), mask=P(19), witness_bit=5, est_s=20,
                    bounds="witness twin: index wrap-around and drop of a non-empty buffer"))
     thorough = quick + [
-        H(RING, "fixed_hist_c2_n4", "hold", replay=("ring_hist_fixed", 2), est_s=600, timeout=1500, mem_gb=30, bonus=True,
+        H(RING, "fixed_hist_c2_n4", "hold", replay=("ring_hist_fixed", 2), mask=P(19), est_s=600, timeout=1500, mem_gb=30, bonus=True,
           bounds="FixedHeapBuf capacity 2, 4 operations (VecDeque wrap-around; bonus, ran out of memory at 15 GB in probes)"),
     ]
     return {"quick": quick, "thorough": thorough,
@@ -622,6 +624,9 @@ def c18_prop():
         H(MPMC, "hist_c18_c2_tr_p0_n4", "hold", replay=("mpmc_hist_noop", mpmc_cfg(2, "tr", 0)), mask=P(18), est_s=300, est_gb=4, bounds="E-HIST mpmc capacity 2", **st),
         H(LIFE, "life_c18_oneshot_bc_n3", "hold", replay=("life_oneshot_bc", 0), mask=P(18), est_s=300, est_gb=8, timeout=900,
           bounds="shared oneshot-broadcast: handle clone/drop and polling after construction", **st),
+        H(RING, "fixed_c18_c1_n3", "hold", replay=("ring_hist_fixed", 1), mask=P(18), est_s=20, bounds="FixedHeapBuf capacity 1: 3 push/pop operations after with_capacity() never reach the allocator", **st),
+        H(RING, "fixed_c18_c2_n3", "hold", replay=("ring_hist_fixed", 2), mask=P(18), est_s=30, bounds="FixedHeapBuf capacity 2, 3 operations (fills the buffer completely)", **st),
+        H(RING, "array_c18_c2_n4", "hold", replay=("ring_hist_array", 2), mask=P(18), est_s=20, bounds="ArrayBuf capacity 2, 4 operations", **st),
     ]
     thorough = quick + [
         H(LIFE, "life_c18_state_n3", "hold", replay=("life_state", 0), mask=P(18), est_s=600, est_gb=10, timeout=3000, bounds="shared state-broadcast handles", **st),
@@ -632,7 +637,8 @@ def c18_prop():
             "bounds": {"hist_N": "4-5", "K_live_futures": 3},
             "assumptions": ["frees are not observable in the model (Kani reaches the deallocator through its own model, not through alloc::alloc::dealloc); "
                             "the native replayer counts allocations AND frees with a counting #[global_allocator]",
-                            "wakers and payloads of the harness do not allocate", "GrowingHeapBuf (the documented exception) is not driven"],
+                            "wakers and payloads of the harness do not allocate", "GrowingHeapBuf (the documented exception) is not driven",
+                            "FixedHeapBuf is driven directly (RingBuf API) at capacity 1 and 2, not through a channel; larger capacities rest on VecDeque::with_capacity(cap) reserving >= cap"],
             "technique": DEFAULT_TECHNIQUE + "; allocator entry points replaced by counting stubs (cargo kani -Z stubbing)"}
 
 
